@@ -160,7 +160,6 @@ func startFakeMaster(sc *vScript) *vFakeMaster {
 				return
 			}
 			fm.mu.Lock()
-			fm.accepted++
 			fm.conns = append(fm.conns, c)
 			fm.mu.Unlock()
 			go fm.serve(c)
@@ -200,9 +199,14 @@ func fmRead(c net.Conn) (byte, []byte, error) {
 var fmOK = []byte{0x00, 0x00, 0x00, 0x02, 0x00, 0x00, 0x00}
 
 func (fm *vFakeMaster) serve(c net.Conn) {
+	// a connection counts once the library has used it (first command): a dial
+	// that the driver abandons during its own handshake never reaches the library
+	used := false
 	defer func() {
 		fm.mu.Lock()
-		fm.closedByClient++
+		if used {
+			fm.closedByClient++
+		}
 		fm.mu.Unlock()
 		c.Close()
 	}()
@@ -233,6 +237,12 @@ func (fm *vFakeMaster) serve(c net.Conn) {
 		_, p, err := fmRead(c)
 		if err != nil || len(p) == 0 {
 			return
+		}
+		if !used {
+			used = true
+			fm.mu.Lock()
+			fm.accepted++
+			fm.mu.Unlock()
 		}
 		switch p[0] {
 		case 0x01: // COM_QUIT
